@@ -26,10 +26,10 @@ CASE_TIMEOUT = {"quick": 1200, "thorough": 3000}
 
 
 def cases(tier, rng):
-    n = 14 if tier == "quick" else 84
+    n = 12 if tier == "quick" else 84
     out = []
     for i in range(n):
-        T = int(rng.integers(5, 22 if tier == "quick" else 50))
+        T = int(rng.integers(5, 15 if tier == "quick" else 50))
         lossy = bool(i % 7 == 3)
         kc = ["zero", "random", "all"][i % 3] if not lossy else "all"
         out.append(
